@@ -13,6 +13,17 @@ ALLOWED_AXIOMS = {
 }
 
 PROPS = {
+    "C15": {
+        "n": {"quick": 60, "thorough": 1500},
+        "shards": 16,
+        "harness_timeout": 2400,
+        "trusted": [
+            "Go's map iteration order cannot be chosen by the harness: determinism of the implementation is searched by repetition (24 fresh in-process servers + 2 fresh processes per case, with and without workspace root), not proved of the Go code",
+            "the theorems are about the sorting steps of the model (message parts, completion ranking, URI order); that every emitting site does sort is what the repetition run checks",
+        ],
+        "assumptions": ["completion labels within one list are distinct; usage counts are < 2^64"],
+        "explanation": "order-independence theorems for sorted outputs (generic + 3 instances), refutation of the pre-fix comparator; oracle: all repetitions of every response fall into one class",
+    },
     "C20": {
         "n": {"quick": 500, "thorough": 8000},
         "shards": 16,
